@@ -14,7 +14,7 @@ CLAIMED = {
 }
 
 CLAIMED["C01"] = (
-    "rapid-generated route sets and requests (incl. wide sets with 13..30 siblings) + small-scope enumeration, oracle = reference matcher over the flat route list (documented priority) and a priority-free brute force for the iff; plus reference-free metamorphic relations (unrelated route, adjacent swap across ranks, other method, leading slashes)",
+    "rapid-generated route sets and requests (incl. wide sets with 13..30 siblings) + small-scope enumeration, oracle = reference matcher over the flat route list (documented priority) and a priority-free brute force for the iff; plus reference-free metamorphic relations (unrelated route, adjacent swap across ranks, other method, leading slashes); thorough tier: a coverage-guided native fuzz campaign that drives the same generator and oracle through rapid.MakeFuzz",
     "Random valid route sets (shared segment pool, random order, 1..2 methods) and constructed/mutated request paths are matched by route.Tree.Match and served by Flame.ServeHTTP; found/not-found must equal 'some route form admits the path' (brute force over alignments) and the winner must equal the reference matcher's. Plus every ordered set of <=2 (thorough <=3) compatible routes of a 13-route pool against all 780 paths of <=4 segments over 5 values.",
     "trusts the reference matcher internal/model/match.go (written from the statement) and Go's regexp for segment admission; only registrations the statement obliges the router to accept are used",
     "DESIGN.md section 4 C01")
@@ -25,7 +25,7 @@ CLAIMED["C02"] = (
     "trusts Go's regexp for 'matches its own expression in full', an own percent-decoder, and the reference parser for the canonical text; user expressions come from a pool without look-around assertions",
     "DESIGN.md section 4 C02")
 CLAIMED["C08"] = (
-    "rapid-generated registration histories with named invalidating operators, oracle = three-valued registration validity model (MUST_REJECT / MUST_ACCEPT / EITHER) + reachability of accepted routes through the reference matcher",
+    "rapid-generated registration histories with named invalidating operators, oracle = three-valued registration validity model (MUST_REJECT / MUST_ACCEPT / EITHER) + reachability of accepted routes through the reference matcher; thorough tier: a coverage-guided native fuzz campaign that drives the same generator and oracle through rapid.MakeFuzz",
     "Histories of accepted registrations followed by a candidate built by one of 21 operators named after the clauses of C08 are replayed on Flame.Route and route.AddRoute; the model's verdict must agree with 'panicked now / did not', every accepted route must serve its own instances (long and short form) through the reference matcher's winner, and no request may panic after any history, including after a rejected registration.",
     "trusts the validity model internal/model/registrar.go (written from the clause list of C08) and regexp.Compile for 'does not compile'; shapes the statement does not classify are EITHER",
     "DESIGN.md section 4 C08")
